@@ -98,6 +98,46 @@ func check(c Case, o *stats.Obs) error {
 		o.Key = key
 		return fmt.Errorf("victim segment %d (%x corrupted to %x): %v", c.Victim, orig, v, err)
 	}
+	// A frame that fails its CRC must leave no trace: every other message must be delivered with exactly
+	// the same fields (type, raw bytes, timestamp, time lines, error text) as in the run where the victim's
+	// place is taken by plain 0xD3-free junk of the same length.
+	{
+		j := gen.Stream{Segs: append([]gen.Segment{}, s.Segs...)}
+		junk := make([]byte, len(v))
+		for i := range junk {
+			junk[i] = 0x55
+		}
+		j.Segs[c.Victim] = gen.Segment{Kind: "junk", Data: junk}
+		jin := j.Bytes()
+		jres := drive.Run(drive.NewHandler(slog.LevelInfo), jin, drive.Options{InCap: c.InCap, OutCap: 1})
+		if jres.Panic == "" && jres.Closed {
+			// map messages of both runs by the byte offset at which they start
+			type key struct{ off, n int }
+			at := map[key]int{}
+			off := 0
+			for i, m := range jres.Msgs {
+				at[key{off, len(m.RawData)}] = i
+				off += len(m.RawData)
+			}
+			off = 0
+			for i, m := range res.Msgs {
+				k := key{off, len(m.RawData)}
+				off += len(m.RawData)
+				ji, ok := at[k]
+				if !ok || m.MessageType < 0 {
+					continue
+				}
+				jm := jres.Msgs[ji]
+				if jm.MessageType != m.MessageType || !bytes.Equal(jm.RawData, m.RawData) {
+					continue // a neighbour merged with the junk in the reference run: not comparable
+				}
+				if jm.Timestamp != m.Timestamp || jm.SentAt != m.SentAt || jm.StartOfWeek != m.StartOfWeek || jm.ErrorMessage != m.ErrorMessage {
+					o.Key = "victim-left-a-trace"
+					return fmt.Errorf("message %d (type %d, %x) is delivered differently because an earlier frame failed its CRC than when plain junk stands in that frame's place: SentAt %q vs %q, StartOfWeek %q vs %q, error %q vs %q (victim %x)", i, m.MessageType, m.RawData, m.SentAt, jm.SentAt, m.StartOfWeek, jm.StartOfWeek, m.ErrorMessage, jm.ErrorMessage, v)
+				}
+			}
+		}
+	}
 	o.NonTrivial = c.Victim > 0 && c.Victim < len(s.Segs)-1
 	if introducesD3 {
 		o.Class("fault-introduces-d3")
@@ -118,6 +158,23 @@ func check(c Case, o *stats.Obs) error {
 	return nil
 }
 
+// msmSeries replaces the frames of a clean stream by MSM frames of one constellation whose timestamps
+// jump about, so that the handler's time tracking is sensitive to every frame it accepts.
+func msmSeries(t *rapid.T, s *gen.Stream) {
+	typ := rapid.SampledFrom([]int{1074, 1077, 1084, 1087, 1094, 1097, 1124, 1127}).Draw(t, "seriesType")
+	for i := range s.Segs {
+		if s.Segs[i].Kind != "valid" {
+			continue
+		}
+		ts := uint(rapid.IntRange(0, 604799999).Draw(t, "seriesTs"))
+		if typ == 1084 || typ == 1087 {
+			ts = uint(rapid.IntRange(0, 6).Draw(t, "seriesDay"))<<27 | uint(rapid.IntRange(0, 86399999).Draw(t, "seriesMs"))
+		}
+		m := enc.MSM{Type: typ, StationID: uint(i), Timestamp: ts}
+		s.Segs[i].Data = m.Frame()
+	}
+}
+
 func gen1(t *rapid.T) Case {
 	maxLen := 50
 	if rapid.IntRange(0, 5).Draw(t, "long") == 0 {
@@ -132,6 +189,9 @@ func gen1(t *rapid.T) Case {
 	segs = append(segs, s.Segs[pos:]...)
 	// a truncated tail must stay last
 	s.Segs = segs
+	if rapid.IntRange(0, 3).Draw(t, "msmSeries") == 1 {
+		msmSeries(t, &s)
+	}
 	if pos == len(segs)-1 && len(segs) > 1 && segs[len(segs)-2].Kind == "truncated" {
 		segs[len(segs)-1], segs[len(segs)-2] = segs[len(segs)-2], segs[len(segs)-1]
 		pos = len(segs) - 2
